@@ -75,6 +75,7 @@ def runCmd (s : DState) (line : String) : DState :=
     | "big", [] => doRoundtrip s (.real (Float.ofBits 0x7ff0000000000000))
     | _, _ => s.emit "lpcerr"
   | ["rv", h] => doRestoreText s (bytesOfHex h)
+  | ["rx", _, h] => doRestoreText s (bytesOfHex h)
   | ["rv"] => doRestoreText s []
   | ["set", i, a, b, st, c] =>
     match parseValue i, parseValue a, parseValue b, parseValue st, parseValue c with
